@@ -5,7 +5,7 @@ import os
 ROOT = os.path.dirname(os.path.dirname(os.path.abspath(__file__)))
 
 HOOK_COMMITS = ["7a8ba4f"]
-FIX_COMMITS = ["5737839", "2d5e69c", "bf43ee9", "0b45cfb", "823a22a", "a9e432f", "5be6b47"]
+FIX_COMMITS = ["5737839", "2d5e69c", "bf43ee9", "0b45cfb", "823a22a", "a0bae4e", "a7c4305", "a9e432f", "5be6b47"]
 
 CHECKS = {
     "C01": dict(
@@ -149,6 +149,17 @@ CHECKS["C17"] = dict(
          "cross-checked against pyzx.tensorfy on every exported graph.",
     note="Trusted: TLC, graph/diagram projections, the in-process pyzx adapter.",
     ref="5/C17", technique="TLA+ exact-arithmetic spec + TLC, translation validation both ways")
+
+CHECKS["C12"] = dict(
+    text="CQ.tla defines classical-quantum maps mathematically over the exact ring (doubling, delta tensors for "
+         "measure/encode with all variants, traces for discards, sector-wise tensor product, mixed swaps, classical "
+         "gates, scalars) and the distribution over output bits after init-and-discard. TLC proves on every mixed "
+         "circuit in bounds: doubling of pure circuits, trace preservation, normalised counts, adjointness. For "
+         "every recorded circuit TLC computes the exact CQ array, pure tensor, Born distribution and counts; "
+         "eval(mixed=True), eval(), measure() and get_counts() of the real library are compared with their float "
+         "images; the library must evaluate spec-mixed circuits as CQ maps.",
+    note="Trusted: TLC, float comparison, adapter from abstract boxes to discopy boxes.",
+    ref="5/C12", technique="TLA+ exact-arithmetic spec + TLC as reference evaluator, replay of model circuits")
 
 NOT_YET = {}
 
